@@ -415,6 +415,12 @@ def fixup_ast_from_modifications(transformed_ast: ast.AST, original_ast: ast.Cal
 
             self._update_copy()
             n_old_args = len(orig_ast.args)
+            # An argument that was replaced (by a callback, say) rather than followed in place
+            for i, a in enumerate(node.args[:n_old_args]):
+                old = orig_ast.args[i]
+                if a is not old and getattr(a, "_old_ast", None) is not old:
+                    orig_ast.args[i] = a
+            del orig_ast.args[len(node.args) :]
             for a in node.args[n_old_args:]:
                 orig_ast.args.append(a)
             # Keywords that were turned into positional arguments are gone from the new call
